@@ -643,6 +643,9 @@ func c20OneSided(r *sim.Run) {
 func c20Unordered(r *sim.Run) {
 	r.Case = "unordered"
 	n := r.Choose(12, "n")
+	if r.Choose(3, "bigger") == 0 {
+		n += 12 // past the 8-entry array node and deep enough for tries with several levels
+	}
 	keys := map[int]int{}
 	for i := 0; i < n; i++ {
 		k := r.Choose(40, "k")
@@ -664,12 +667,25 @@ func c20Unordered(r *sim.Run) {
 	kv := func(it fp.Iterator[fp.Tuple2[int, int]]) fp.Iterator[int] {
 		return fp.MakeIterator(it.HasNext, func() int { t := it.Next(); return t.I1*1000 + t.I2 })
 	}
-	hashers := []fp.Hashable[int]{hash.Number[int](), constHasher{}, lowHasher{}}
+	// high-bits-only and "digit" hashers: leaves at the deepest trie level (hashes that differ in bits 30/31 only), sparse
+	// hash-array nodes, collision nodes next to sub-branches - the shapes the depth-first iterator has to walk
+	hashers := []fp.Hashable[int]{hash.Number[int](), constHasher{}, lowHasher{},
+		fnHasher{name: "k<<27", f: func(k int) uint32 { return uint32(k) << 27 }},
+		fnHasher{name: "k%2 | (k/2)%20<<5", f: func(k int) uint32 { return uint32(k%2) | uint32((k/2)%20)<<5 }},
+		fnHasher{name: "(k%5)<<30 | k%3", f: func(k int) uint32 { return uint32(k%5)<<30 | uint32(k%3) }}}
 	h := hashers[r.Choose(len(hashers), "hasher")]
 	base := r.Choose(16, "ubase")
 	var it fp.Iterator[int]
 	var ref []int
 	desc := ""
+	built := false
+	defer func() {
+		if !built {
+			if p := recover(); p != nil {
+				r.Violate("iterator-panic", "constructing an iterator over %d keys %v (variant %d) panicked: %v", len(ks), ks, base, p)
+			}
+		}
+	}()
 	im := immutable.Map(h, tuples...)
 	mm := mutable.MapOf(keys)
 	switch base {
@@ -714,6 +730,7 @@ func c20Unordered(r *sim.Run) {
 		}
 		it, ref, desc = kv(b.Build().Iterator()), kvs, "MapBuilder.Build.Iterator"
 	}
+	built = true
 	r.MixFingerprintS(desc)
 	r.MixFingerprintS(fmt.Sprint(ks))
 	sc := c20Script(r, len(ref)+1)
